@@ -7,11 +7,14 @@ results, provided the call handler does (`CallOK`). They touch closures only thr
 `σ.closures[id]?` (in `callVal`) — everything else is insensitive to closure bodies.
 -/
 namespace DarkluaModel.Sem.Heap
-variable {N : NumOps} {Q : QRel} {cx : Cx} {β : CellRel}
+variable {N : NumOps} {Q : QRel} {cx : Cx} {β : CellRel N}
 
 /-- the call handler maps related closures / states to related results -/
-def CallOK (Q : QRel) (cx : Cx) (call : CallFn N) : Prop :=
-  ∀ (β : CellRel) c c' args σ σ', CRel Q cx β c c' → SRel Q cx β σ σ' → RRel Q cx β AEq (call c args σ) (call c' args σ')
+structure CallOK (Q : QRel) (cx : Cx) (call : CallFn N) : Prop where
+  /-- the context's assumption on the call handler -/
+  cf : cx.CF N call
+  rel : ∀ (β : CellRel N) c c' args σ σ', CRel Q cx β c c' → SRel Q cx β σ σ' →
+    RRel Q cx β AEq (call c args σ) (call c' args σ')
 
 /-- closes a leaf goal `RRel Q cx β AEq (.ok a σ₁) (.ok a σ₂)` etc. from an `SRel` hypothesis in context -/
 macro "rr_leaf" : tactic => `(tactic| first
@@ -24,11 +27,11 @@ macro "rr_leaf" : tactic => `(tactic| first
 macro "rr_split" : tactic => `(tactic| repeat' (first | rr_leaf | split))
 
 structure LibP (Q : QRel) (cx : Cx) (call : CallFn N) (ρ : ExtOracle N) (d : Nat) : Prop where
-  callVal : ∀ {β : CellRel} f args σ σ', SRel Q cx β σ σ' → RRel Q cx β AEq (callVal call ρ d f args σ) (Sem.callVal call ρ d f args σ')
-  tostringVal : ∀ {β : CellRel} v σ σ', SRel Q cx β σ σ' → RRel Q cx β AEq (tostringVal call ρ d v σ) (Sem.tostringVal call ρ d v σ')
-  formatAux : ∀ {β : CellRel} fmt args acc σ σ', SRel Q cx β σ σ' →
+  callVal : ∀ {β : CellRel N} f args σ σ', SRel Q cx β σ σ' → RRel Q cx β AEq (callVal call ρ d f args σ) (Sem.callVal call ρ d f args σ')
+  tostringVal : ∀ {β : CellRel N} v σ σ', SRel Q cx β σ σ' → RRel Q cx β AEq (tostringVal call ρ d v σ) (Sem.tostringVal call ρ d v σ')
+  formatAux : ∀ {β : CellRel N} fmt args acc σ σ', SRel Q cx β σ σ' →
     RRel Q cx β AEq (formatAux call ρ d fmt args acc σ) (Sem.formatAux call ρ d fmt args acc σ')
-  libCall : ∀ {β : CellRel} name args σ σ', SRel Q cx β σ σ' → RRel Q cx β AEq (libCall call ρ d name args σ) (Sem.libCall call ρ d name args σ')
+  libCall : ∀ {β : CellRel N} name args σ σ', SRel Q cx β σ σ' → RRel Q cx β AEq (libCall call ρ d name args σ) (Sem.libCall call ρ d name args σ')
 
 variable {call : CallFn N} {ρ : ExtOracle N}
 
@@ -48,7 +51,7 @@ theorem callVal_succ (hc : CallOK Q cx call) {d : Nat} (ih : LibP Q cx call ρ d
     cases h1 : σ.closures[id]? <;> cases h2 : σ'.closures[id]? <;> rw [h1, h2] at hg <;>
       simp only [OptRel] at hg
     · exact RRel.errS h
-    · exact hc _ _ _ _ _ _ hg h
+    · exact hc.rel _ _ _ _ _ _ hg h
   | builtin name =>
     simp only [callVal]
     split
@@ -108,6 +111,8 @@ theorem libCall_succ {d : Nat} (ih : LibP Q cx call ρ d) (name : String) (args 
       exact ⟨β', hle, by rw [show _ = _ from ha]; rfl, hs⟩
     · obtain ⟨hv, β', hle, hs⟩ := hr
       exact ⟨β', hle, by rw [hv]; rfl, hs⟩
+    · exact hr
+    · exact hr
   · -- string.format
     split
     · exact RRel.bindEq (ih.formatAux _ _ _ _ _ h) fun _ _ _ _ _ hs => RRel.okEq hs
